@@ -821,4 +821,72 @@ where
                 }
             }
 //%% end
+
+//%% extract src/backing_store/bump_table.rs :: impl<'a, T: Eq + Hash + Clone> BackedRobinhoodTable<'a, T> :: fn get_by_hash
+//%% @attr #[verifier::exec_allows_no_decreases_clause]
+//%% @ret r
+//%% @rewrite 1 /\n                    self\.hits \+= 1;/ => 
+//%% @spec
+        requires
+            old(self).twf(),
+        ensures
+            final(self).tbl@ == old(self).tbl@, final(self).cap == old(self).cap, final(self).len == old(self).len,
+            // a hit is a stored pointer with that hash; a miss means no entry has that hash (lookup completeness)
+            r matches Some(p) ==> holds(old(self).tbl@, Some(p), hash),
+            r is None ==> forall|i: int| 0 <= i < old(self).tbl@.len() && occ(#[trigger] old(self).tbl@[i]) ==> old(self).tbl@[i].hash != hash,
+//%% @entry
+        let ghost o = self.tbl@;
+        let ghost any_elem: T = arbitrary();
+        proof {
+            axiom_clone_eq::<HashTableElement<'a, T>>();
+            lemma_search_init(o, o, self.cap as int, hash, any_elem, true);
+        }
+//%% @loop 1 /^loop$/
+            invariant
+                search_inv(o, self.tbl@, self.cap as int, hash, any_elem, true, pos as int, psl as int),
+                self.tbl.len() == self.cap, 0 <= pos < self.cap, self.tbl@ == o, o == old(self).tbl@,
+                self.cap == old(self).cap, self.len == old(self).len,
+                forall|a: HashTableElement<'a, T>, b: HashTableElement<'a, T>| #[trigger] call_ensures(HashTableElement::<'a, T>::clone, (&a,), b) ==> a == b,
+//%% @loopbody 1
+            proof {
+                let g = self.tbl@;
+                let cap = self.cap as int;
+                axiom_probe_bound(psl, 0, self.cap);
+                if occ(g[pos as int]) {
+                    if g[pos as int].hash == hash {
+                        lemma_holds_intro(g, pos as int, -1);
+                        assert(g[pos as int].ptr == Some(g[pos as int].ptr->Some_0));
+                    } else if g[pos as int].psl < psl {
+                        lemma_absent(o, g, cap, hash, any_elem, true, pos as int, psl as int);
+                    } else {
+                        lemma_search_step(o, g, cap, hash, any_elem, true, pos as int, psl as int);
+                    }
+                } else {
+                    lemma_absent(o, g, cap, hash, any_elem, true, pos as int, psl as int);
+                }
+            }
+//%% end
+}
+
+impl<'a, T: Clone> BackedRobinhoodTable<'a, T>
+where
+    T: Hash + PartialEq + Eq + Clone,
+{
+//%% extract src/backing_store/bump_table.rs :: impl<'a, T: Clone> BackedRobinhoodTable<'a, T> where T: Hash + PartialEq + Eq + Clone, :: fn new
+//%% @ret r
+//%% @spec
+        ensures
+            r.twf(), r.len == 0,
+            forall|q: Option<&'a T>, h: u64| !holds(r.tbl@, q, h),
+//%% @entry
+        proof {
+            axiom_clone_eq::<HashTableElement<'a, T>>();
+            assert forall|t: Slots<'a, T>, q: Option<&'a T>, h: u64| (forall|i: int| 0 <= i < t.len() ==> !occ(#[trigger] t[i])) && #[trigger] holds(t, q, h) implies false by {
+                lemma_empty_holds(t, q, h);
+            }
+            assert forall|t: Slots<'a, T>| t.len() > 0 && (forall|i: int| 0 <= i < t.len() ==> !occ(#[trigger] t[i])) implies #[trigger] wfl(t) by {
+                lemma_empty_wfl(t);
+            }
+        }
+//%% end
 }
